@@ -51,7 +51,7 @@ pub fn run_one(h: &History, checks: &Checks, secs: u64) -> CaseResult {
     };
     for (thread, msg) in panics {
         let short: String = msg.chars().take(300).collect();
-        if thread.starts_with("raindb-compact") {
+        if thread.starts_with("raindb-") {
             obs.insert(0, Obs { sig: "c09:background-thread-panicked".into(), what: format!("the compaction thread panicked: {short}"), at: 0 });
         } else {
             obs.push(Obs { sig: "c09:panic".into(), what: format!("thread {thread} panicked: {short}"), at: 0 });
